@@ -4,9 +4,9 @@
                  the write lock;
    [sections_ok] on every control path a method acquires the lock of one scope at most once (directly
                  or by calling another locking method on the same receiver) before it moves on to
-                 another scope - so each operation is one critical section per scope.  Methods listed
-                 in [two_phase] are exempt: their check-then-act structure is examined by the
-                 schedule exploration of ./check C13 instead. *)
+                 another scope - so each operation is one critical section per scope.  [two_phase] lists
+                 exempted methods: none (DeleteGlobal was, until its check-then-act was found
+                 non-linearizable by the thorough schedule exploration and repaired). *)
 From Coq Require Import String List Bool Arith.
 Import ListNotations.
 Open Scope string_scope.
@@ -43,7 +43,7 @@ Fixpoint path_ok (lk : list string) (held : nat) (p : list event) : bool :=
   | ECall c :: r => if mem c lk then Nat.eqb held 0 && path_ok lk 1 r else path_ok lk held r
   end.
 
-Definition two_phase : list string := ["DeleteGlobal"].
+Definition two_phase : list string := [].
 
 Definition sections_ok (ms : list method) : bool :=
   let lk := locking (S (length ms)) ms in
